@@ -9,7 +9,7 @@
 From Coq Require Import List NArith ZArith Bool Sorted Permutation.
 Import ListNotations.
 From SV Require Fmt.CmdSeq Fmt.CmdSeqProofs Fmt.ScenesImage Fmt.ScenesImageProofs Fmt.ScenesImageCfg Fmt.ScenesImageCfgProofs
-  Fmt.SmdTpl Fmt.SmdTplProofs Fmt.SmdWords Fmt.TextFields Fmt.TextFieldsProofs Fmt.SndStacks Fmt.SndStacksProofs Fmt.VmtQuote Fmt.VmtQuoteProofs Fmt.TextLines Fmt.TextLinesProofs Fmt.ChoreoBin Fmt.ChoreoBinProofs Fmt.SceneSummary KV.KvBase KV.KvLex KV.KvSym KV.KvLexProofs.
+  Fmt.SmdTpl Fmt.SmdTplProofs Fmt.SmdWords Fmt.TextFields Fmt.TextFieldsProofs Fmt.SndStacks Fmt.SndStacksProofs Fmt.VmtQuote Fmt.VmtQuoteProofs Fmt.TextLines Fmt.TextLinesProofs Fmt.ChoreoBin Fmt.ChoreoBinProofs Fmt.SceneSummary Fmt.BspDedup Fmt.C20KeyTables Fmt.C20KeyTablesProofs Fmt.SmdNumber Fmt.SmdNumberProofs Fmt.ChoreoQuant Fmt.C20PropertyProofs KV.KvBase KV.KvLex KV.KvSym KV.KvLexProofs.
 
 (** * Command sequences *)
 Module CS := Fmt.CmdSeq.
@@ -425,3 +425,145 @@ Proof. exact SS.summary_order_independent. Qed.
 (** milliseconds are monotone in the time *)
 Theorem c20_summary_ms_monotone : forall a b, (a <= b)%Z -> (SS.ms a <= SS.ms b)%Z.
 Proof. exact SS.ms_mono. Qed.
+
+(** * Keyed tables of the writers (round 4): bone numbering through [dict[Bone, int]], the string pool, particle systems by
+    name, scenes.image slots.  The table is C11's [dd_run] (Fmt/BspDedup.v, imported); the census [kt_tables] / [kt_classes] is
+    regenerated from the six modules (Gen/KeyTables_gen.v), the KEY of an object-keyed table being read from the [__eq__] /
+    [__hash__] of the key's class. *)
+Module KT := Fmt.C20KeyTables.
+Module KTP := Fmt.C20KeyTablesProofs.
+Module DD := Fmt.BspDedup.
+From Coq Require Import String.
+Open Scope string_scope.
+Open Scope list_scope.
+
+(** every table of a census passing [tables_ok] (the instance obligation on [kt_tables]): whatever is requested, in whatever
+    order, the record stored under the number handed out for an object is that object's record *)
+Theorem c20_keyed_table_roundtrip : forall (ts : list DD.dedup_table) name adm fields k tr l xs,
+  KT.tables_ok ts = true -> In (name, adm, fields, k) ts ->
+  (forall v, tr "" v = v) ->
+  (forall o, In o (l ++ xs) -> map fst (snd o) = fields) ->
+  (forall o o', In o (l ++ xs) -> In o' (l ++ xs) -> fst o = fst o' -> o = o') ->
+  (forall t, In t adm -> forall o o' f v v', In o (l ++ xs) -> In o' (l ++ xs) ->
+     DD.assoc_f f (snd o) = Some v -> DD.assoc_f f (snd o') = Some v' -> tr t v = tr t v' -> v = v') ->
+  forall s' is, DD.dd_run (DD.key_sem tr k) DD.keyval_eqb (DD.dd_init (DD.key_sem tr k) l) xs = (s', is) ->
+  Forall2 (fun o i => DD.read_back (fst s') i = Some (snd o)) xs is /\ exists ext, fst s' = l ++ ext.
+Proof. exact KTP.keyed_table_roundtrip. Qed.
+
+(** hand-written comparison methods passing [kcmp_ok]: objects the dict treats as equal also hash equal *)
+Theorem c20_class_equal_objects_hash_equal : forall eq ne hash tr (o o' : DD.obj),
+  KT.kcmp_ok (KT.CFields eq ne hash) = true -> (forall v, tr "" v = v) ->
+  DD.key_sem tr (DD.KFields eq) o = DD.key_sem tr (DD.KFields eq) o' ->
+  DD.key_sem tr (DD.KFields hash) o = DD.key_sem tr (DD.KFields hash) o'.
+Proof. exact KTP.class_equal_objects_hash_equal. Qed.
+
+(** the class of seeded fault c20_6: [Bone.__eq__] / [__hash__] through [name.casefold()] are consistent with each other, but
+    "Weapon" and "weapon" get one node number, under which the reader finds "Weapon"; with the exact name both are kept *)
+Theorem c20_smd_bone_key_casefold_refuted :
+  KT.kcmp_ok KTP.bone_casefold = true /\ KT.kcmp_exact KTP.bone_casefold = false /\
+  DD.dedup_ok ("smd.Mesh.export:bone_indexes", [], ["name"], KT.keyspec_of_class KTP.bone_casefold) = false /\
+  (let k := DD.key_sem KT.tr_case (KT.keyspec_of_class KTP.bone_casefold) in
+   let '(s, is) := DD.dd_run k DD.keyval_eqb (DD.dd_init k []) [KT.bone_Weapon; KT.bone_weapon] in
+   is = [0; 0]%nat /\ DD.read_back (fst s) 0 = Some (snd KT.bone_Weapon) /\ snd KT.bone_Weapon <> snd KT.bone_weapon) /\
+  KT.kcmp_ok KTP.bone_exact = true /\ KT.kcmp_exact KTP.bone_exact = true /\
+  DD.dedup_ok ("smd.Mesh.export:bone_indexes", [], ["name"], KT.keyspec_of_class KTP.bone_exact) = true /\
+  (let k := DD.key_sem KT.tr_case (KT.keyspec_of_class KTP.bone_exact) in
+   let '(s, is) := DD.dd_run k DD.keyval_eqb (DD.dd_init k []) [KT.bone_Weapon; KT.bone_weapon; KT.bone_Weapon] in
+   is = [0; 1; 0]%nat /\ DD.read_back (fst s) 1 = Some (snd KT.bone_weapon)).
+Proof. exact KTP.bone_key_casefold_refuted. Qed.
+
+(** [__eq__] folding case with an exact [__hash__] is rejected (equal objects, different hashes); the converse is accepted *)
+Theorem c20_hash_finer_than_eq_refuted :
+  KT.kcmp_ok (KT.CFields [("name", "casefold")] [("name", "casefold")] [("name", "")]) = false /\
+  KT.kcmp_ok (KT.CFields [("name", "")] [("name", "")] [("name", "casefold")]) = true.
+Proof. exact KTP.hash_finer_than_eq_refuted. Qed.
+
+(** a string pool keyed by the casefolded string, a particle table keyed more coarsely than the reader keys systems *)
+Theorem c20_pool_key_casefold_refuted :
+  DD.dedup_ok ("choreo.save_scenes_image_sync:add_to_pool", [], ["<value>"], DD.KFields [("<value>", "casefold")]) = false /\
+  DD.dedup_ok ("choreo.save_scenes_image_sync:add_to_pool", [], ["<value>"], DD.KValue) = true /\
+  DD.dedup_ok ("particles.Particle.export:name_to_elem", ["casefold"], ["name"], DD.KFields [("name", "casefold")]) = true /\
+  DD.dedup_ok ("particles.Particle.export:name_to_elem", ["casefold"], ["name"], DD.KFields [("name", "strip+casefold")]) = false.
+Proof. exact KTP.pool_key_casefold_refuted. Qed.
+
+(** * SMD bone numbering (round 4): the [nodes] section of [Mesh.export] -- [dict.fromkeys] over the bones, passes that number a
+    bone once its parent is numbered, [ValueError] when a pass numbers nobody -- against the reader's line-by-line table
+    (numbers consecutive from 0, a parent number must be defined by an earlier line).  Model Fmt/SmdNumber.v, compared with the
+    implementation on every run. *)
+Module SN := Fmt.SmdNumber.
+Module SNP := Fmt.SmdNumberProofs.
+
+(** whenever the section is written, the reader accepts every line and returns, in file order, exactly the (name, parent name)
+    records of the bones of [todo]: each once, none invented, whatever the order of the dict (children first included) *)
+Theorem c20_smd_nodes_section_reads_back : forall bs ls, SN.number bs = Some ls ->
+  exists perm, Permutation perm (SN.dedupe bs) /\ SN.read_nodes [] ls = Some (map SN.bone_rec perm).
+Proof. exact SNP.number_reads_back. Qed.
+
+(** with pairwise distinct keys (names, as the comparison methods of Bone read them) no bone is dropped *)
+Theorem c20_smd_nodes_section_reads_back_distinct : forall bs ls, NoDup (map SN.bkey bs) -> SN.number bs = Some ls ->
+  exists perm, Permutation perm bs /\ SN.read_nodes [] ls = Some (map SN.bone_rec perm).
+Proof. exact SNP.number_reads_back_distinct. Qed.
+
+(** two bones under one key (what a case-folding comparison makes of "Weapon" / "weapon"): the second one is gone *)
+Theorem c20_smd_equal_keys_merge_refuted :
+  SN.number [SN.mkBone 0 None; SN.mkBone 1 (Some 0%N); SN.mkBone 1 (Some 0%N); SN.mkBone 3 (Some 1%N)] =
+  Some [(0%nat, 0%N, None); (1%nat, 1%N, Some 0%nat); (2%nat, 3%N, Some 1%nat)] /\
+  ~ NoDup (map SN.bkey [SN.mkBone 0 None; SN.mkBone 1 (Some 0%N); SN.mkBone 1 (Some 0%N); SN.mkBone 3 (Some 1%N)]).
+Proof. exact SNP.number_equal_keys_merge_refuted. Qed.
+
+(** * Quantised fields of binary choreo scenes (round 4): [min(MAX, max(0, round(value * FACTOR)))] written, [field / FACTOR] read,
+    on the kernel's binary64 floats (Fmt/ChoreoQuant.v; sites regenerated from choreo.py in Gen/QuantSites_gen.v).  The stored
+    values form a finite domain: every one of them is checked in the kernel. *)
+Module CQ := Fmt.ChoreoQuant.
+From Coq Require Import Floats.
+
+(** for every site passing the enumeration: each field value 0..MAX is read as a float that is written back as that field *)
+Theorem c20_choreo_quantised_field_stable : forall s, CQ.all_stable s = true ->
+  forall k, (0 <= k <= CQ.q_max s)%Z -> CQ.quant s (CQ.dequant s k) = Some k.
+Proof. exact CQ.quant_dequant. Qed.
+
+(** ... and read again as the same float (second generation identical) *)
+Theorem c20_choreo_quantised_value_second_generation : forall s, CQ.all_stable s = true ->
+  forall k, (0 <= k <= CQ.q_max s)%Z -> option_map (CQ.dequant s) (CQ.quant s (CQ.dequant s k)) = Some (CQ.dequant s k).
+Proof. exact CQ.dequant_second_generation. Qed.
+
+(** the two sites of the pinned tree: factor 255 into a byte (all 256 values), factor 4096 into 16 bits (all 65536 values) *)
+Theorem c20_choreo_byte_fields_stable : CQ.all_stable CQ.site_byte = true.
+Proof. exact CQ.byte_sites_stable. Qed.
+Theorem c20_choreo_absolute_tag_fields_stable : CQ.all_stable CQ.site_abs = true.
+Proof. exact CQ.abs_sites_stable. Qed.
+
+(** a reader dividing by 256 where the writer multiplies by 255: field 200 comes back as 199 *)
+Theorem c20_choreo_quantisation_factor_mismatch_refuted :
+  CQ.all_stable (CQ.mkQ CQ.QRound 255%float true 255 256%float) = false /\
+  CQ.quant (CQ.mkQ CQ.QRound 255%float true 255 256%float) (CQ.dequant (CQ.mkQ CQ.QRound 255%float true 255 256%float) 200) = Some 199%Z.
+Proof. exact CQ.quant_factor_mismatch_refuted. Qed.
+
+(** * The property, composed (round 4).  One statement with its hypotheses visible: the objects regenerated from today's source --
+    the cmdseq configuration, the scenes.image configuration, the soundscript stack census, the key census of the writers, the
+    quantisation sites -- enter only through the named booleans the check discharges on every run ([cmdseq_cfg_ok], [image_cfg_ok],
+    [sndscript_stack_census_ok], the per-table obligations, the quantisation obligation).  Partial: the formats / layers that have a
+    model (see docs/C20.md for what is only searched); VMT, text lines and SMD data lines have their own statements above, over the
+    tokenizer model. *)
+Theorem c20_property_partial :
+  forall (c : CS.cfg) (ic : SC.icfg) (A : Type) (g : list SK.gterm) (ws : list SK.wblock) (ts : list DD.dedup_table) (qs : list CQ.qsite),
+  CS.cfg_okb c = true -> SC.icfg_okb ic = true -> SK.guard_okb g = true -> SK.blocks_okb ws = true ->
+  KT.tables_ok ts = true -> forallb CQ.all_stable qs = true ->
+  (* command sequences: written, read back equal, second generation identical *)
+  (forall v, CS.repr_okb c v = true -> exists b, CS.write c v = Some b /\ CS.parse c b = Some v /\
+                                                 forall v', CS.parse c b = Some v' -> CS.write c v' = Some b) /\
+  (* scenes.image: read back equal (sorted by checksum), for both input forms and any dict keys *)
+  (forall is_dict version pool kes, SC.image_ok_w version pool (map snd kes) ->
+     exists b, SC.img_save_g ic is_dict version pool kes = Some b /\
+       SI.img_parse b = Some (version, pool, map (SI.to_pentry version pool) (SI.sort_by_crc (map snd kes)))) /\
+  (* binary scenes: every layout decodes what it encoded *)
+  (forall l env v b r, CB.enc l env v = Some b -> CB.dec l env (b ++ r) = Some (v, r)) /\
+  (* ... and every stored quantised field is stable *)
+  (forall s, In s qs -> forall k, (0 <= k <= CQ.q_max s)%Z -> CQ.quant s (CQ.dequant s k) = Some k) /\
+  (* soundscript operator stacks: the value comes back *)
+  (forall x : SK.sound A, SK.same_value (SK.parse (fst (SK.export g ws x))) x) /\
+  (* SMD: the nodes section reads back as the bones, through a table whose key keeps apart what the reader keeps apart *)
+  (forall bs ls, NoDup (map SN.bkey bs) -> SN.number bs = Some ls ->
+     exists perm, Permutation perm bs /\ SN.read_nodes [] ls = Some (map SN.bone_rec perm)) /\
+  (forall name adm fields k, In (name, adm, fields, k) ts -> DD.key_determines adm fields k = true).
+Proof. exact Fmt.C20PropertyProofs.property_partial. Qed.
